@@ -648,15 +648,22 @@ impl<'a, C: Crypto + 'a> CaseP<'a, C> {
     /// # Returns
     /// - `Ok(usize)` - The length of the encrypted data written to `out`
     /// - `Err(Error)` - If an error occurred during the process
+    ///
+    /// `tt_hash` is the transcript hash over Sigma1 || Sigma2 (see [`Self::current_tt_hash`]), taken
+    /// by the caller *before* the first Sigma3 is built: the message builder runs again for every
+    /// MRP retransmission, by which time the transcript already contains Sigma3 itself. Deriving
+    /// the Sigma3 key from the transcript at build time would encrypt the retransmission under a
+    /// different key than the original.
     pub fn sigma3_encrypt(
         &mut self,
         crypto: &C,
         fabric: &Fabric,
+        tt_hash: HashRef<'_>,
         signature: CanonPkcSignatureRef<'_>,
         out: &mut [u8],
     ) -> Result<usize, Error> {
         let mut sigma3_key = AEAD_KEY_ZEROED;
-        self.compute_sigma3_key(crypto, fabric.ipk().op_key(), &mut sigma3_key)?;
+        self.compute_sigma3_key(crypto, fabric.ipk().op_key(), tt_hash, &mut sigma3_key)?;
 
         let mut tw = WriteBuf::new(out);
 
@@ -699,8 +706,11 @@ impl<'a, C: Crypto + 'a> CaseP<'a, C> {
         ipk: CanonAeadKeyRef<'_>,
         encrypted: &mut [u8],
     ) -> Result<usize, Error> {
+        let mut tt_hash = HASH_ZEROED;
+        self.current_tt_hash(&mut tt_hash)?;
+
         let mut sigma3_key = AEAD_KEY_ZEROED;
-        self.compute_sigma3_key(crypto, ipk, &mut sigma3_key)?;
+        self.compute_sigma3_key(crypto, ipk, tt_hash.reference(), &mut sigma3_key)?;
         // println!("Sigma3 Key: {:x?}", sigma3_key);
 
         let encrypted_len = encrypted.len();
@@ -724,12 +734,10 @@ impl<'a, C: Crypto + 'a> CaseP<'a, C> {
         &mut self,
         crypto: &C,
         ipk: CanonAeadKeyRef<'_>,
+        tt_hash: HashRef<'_>,
         key: &mut CanonAeadKey,
     ) -> Result<(), Error> {
         const S3K_INFO: [u8; 6] = [0x53, 0x69, 0x67, 0x6d, 0x61, 0x33];
-
-        let mut tt_hash = HASH_ZEROED;
-        self.current_tt_hash(&mut tt_hash)?;
 
         let mut salt = CryptoSensitive::<{ AEAD_CANON_KEY_LEN + HASH_LEN }>::new();
 
